@@ -79,6 +79,16 @@ def scenarios(d):
         s_twice = dict([("contains", {"$ref": "#/definitions/big"})] + list(s_twice.items()))
     out.append(dict(name="same-ref-verdict-then-report", schema=s_twice, store={}, remote={},
                     instances=[15, 3, 12, [15, 3], [12]], refs=["#/definitions/big"]))
+    # ONE Python dict {"$ref": "item.json"} embedded at two places whose base URIs differ (schemas built in code share
+    # sub-objects freely): what it designates is decided by where it stands, every time
+    shared_ref = {"$ref": "item.json"}
+    out.append(dict(
+        name="one-ref-object-under-two-bases",
+        schema={idk: ROOT, "properties": {"a": {idk: "http://x.invalid/one/", "items": shared_ref},
+                                          "b": {idk: "http://x.invalid/two/", "items": shared_ref}}},
+        store={"http://x.invalid/one/item.json": {"type": "integer"}, "http://x.invalid/two/item.json": {"type": "string"}}, remote={},
+        instances=[{"a": [1]}, {"b": ["x"]}, {"a": ["x"], "b": [1]}],
+        refs=["one/item.json"]))
     # a root document without an id, other documents stored under RELATIVE URIs with a directory, a relative reference
     # from one of them to its neighbour, and references into the root itself before and after
     out.append(dict(
